@@ -23,6 +23,9 @@ META = {
     "assumptions": ["finite floats as reals (correction compares / truncates only)"],
 }
 
+from engine import monitor as _monitor          # noqa: E402
+META["audit"] = lambda: _monitor.audit(('H1',))
+
 
 def ob_leaf(vname):
     def f():
